@@ -154,22 +154,22 @@ func runTitles(c *driver.Ctx, sb *sandbox, form, state, opt, scen string) {
 				}
 				detail := fmt.Sprintf("title %q (%s form, %s), working directory <top>/1/2/3/wd pre-populated: %s, options: %s\nthe name points at %s\nPush returned: %v\nworking directory afterwards:\n%s",
 					shown, form, kind, state, opt, strings.ReplaceAll(dest, sb.top, "<top>"), err, sb.wdListing())
-				class := "relative title"
+				class := "a relative title"
 				if form != "rel" {
-					class = "absolute title"
+					class = "an absolute title"
 				}
 				if panicked != "" {
 					c.AddViolation(driver.Violation{Tier: c.Tier, Job: c.Job, Scenario: scen, Sig: "title: Push panicked", Detail: detail})
 				}
 				if pic := sb.picture(); pic != sb.canon {
 					c.AddViolation(driver.Violation{Tier: c.Tier, Job: c.Job, Scenario: scen,
-						Sig:    "title: object outside the working directory changed by a push with a " + class,
+						Sig:    "title: object outside the working directory changed by a push with " + class,
 						Detail: detail + "\nchanged outside the working directory:\n" + diffPictures(sb.canon, pic)})
 					sb.repair()
 				}
 				if form == "root" && !rootClean() {
 					c.AddViolation(driver.Violation{Tier: c.Tier, Job: c.Job, Scenario: scen,
-						Sig:    "title: object outside the working directory changed by a push with a " + class,
+						Sig:    "title: object outside the working directory changed by a push with " + class,
 						Detail: detail + "\ncreated at the file-system root: " + strings.Join(rootGuard, " or ")})
 					for _, p := range rootGuard {
 						os.RemoveAll(p)
